@@ -35,8 +35,10 @@ import (
 	"github.com/trustbloc/sidetree-go/pkg/versions/1_0/doccomposer"
 	"github.com/trustbloc/sidetree-go/pkg/versions/1_0/doctransformer/didtransformer"
 	"github.com/trustbloc/sidetree-go/pkg/versions/1_0/doctransformer/doctransformer"
+	"github.com/trustbloc/sidetree-go/pkg/versions/1_0/model"
 	"github.com/trustbloc/sidetree-go/pkg/versions/1_0/operationapplier"
 	"github.com/trustbloc/sidetree-go/pkg/versions/1_0/operationparser"
+	"github.com/trustbloc/sidetree-go/pkg/versions/1_0/operationparser/patchvalidator"
 )
 
 // ---- registry histories ----------------------------------------------------------------------
@@ -45,6 +47,35 @@ type idProvider struct{ id int }
 
 func (p *idProvider) Current() (protocol.Version, error)   { return nil, fmt.Errorf("id %d", p.id) }
 func (p *idProvider) Get(uint64) (protocol.Version, error) { return nil, fmt.Errorf("id %d", p.id) }
+
+// providerID tells which registered provider a lookup handed out, by asking it (both of its answers must come from the
+// same registration; -1: they do not - no single registration explains the lookup)
+func providerID(p interface {
+	Current() (protocol.Version, error)
+	Get(uint64) (protocol.Version, error)
+}) int {
+	parse := func(err error) int {
+		if err == nil {
+			return -1
+		}
+
+		s := err.Error()
+		if i := strings.LastIndex(s, "id "); i >= 0 {
+			return atoi(s[i+3:])
+		}
+
+		return -1
+	}
+
+	_, e1 := p.Get(0)
+	_, e2 := p.Current()
+
+	if a, b := parse(e1), parse(e2); a == b {
+		return a
+	}
+
+	return -1
+}
 
 type idFactory struct{ id int }
 
@@ -140,7 +171,7 @@ func registryTrace(args []string) {
 						if c.op == "add" {
 							nsp.Add(ns, &idProvider{c.val})
 						} else if p, err := nsp.ForNamespace(ns); err == nil {
-							res = p.(*idProvider).id
+							res = providerID(p)
 						}
 					} else {
 						ver := fmt.Sprintf("%d.0", c.key)
@@ -319,6 +350,8 @@ func registerRace(args []string) {
 }
 
 // ---- stateless components shared by goroutines -----------------------------------------------
+
+var freshIDs int64
 
 type job struct {
 	name string
@@ -502,6 +535,49 @@ func concurrentRun(args []string) {
 					res, e := tr.TransformDocument(rm, protocol.TransformationInfo{"id": "did:sidetree:versions", "published": true})
 
 					return []interface{}{res, errStr(e)}
+				}})
+			}
+		}
+
+		// ids nobody has validated yet (every call brings its own), deltas with several refused patches (the answer names
+		// the first), and components made inside the call (making one must not disturb the use of another)
+		{
+			vp := testProtocol(1)
+			vparser := operationparser.New(vp)
+
+			for i := 1; i <= 3; i++ {
+				i := i
+
+				jobs = append(jobs, job{fmt.Sprintf("Validate(fresh ids)#%d", i), func() interface{} {
+					n := atomic.AddInt64(&freshIDs, 1)
+					raw := fmt.Sprintf(`{"action":"add-services","services":[{"id":"fresh-%d-%d","type":"T","serviceEndpoint":"https://fresh.example/"},{"id":"also-%d","type":"T","serviceEndpoint":"https://fresh.example/"}]}`, i, n, n)
+
+					var p patch.Patch
+
+					_ = json.Unmarshal([]byte(raw), &p)
+
+					return errStr(patchvalidator.Validate(p))
+				}})
+
+				jobs = append(jobs, job{fmt.Sprintf("ValidateDelta(three refused patches)#%d", i), func() interface{} {
+					raw := fmt.Sprintf(`[{"action":"add-services","services":[{"id":"bad id %d!","type":"T","serviceEndpoint":"https://x.example/"}]},`+
+						`{"action":"remove-public-keys","ids":[]},{"action":"add-also-known-as","uris":["::no uri %d::"]},{"action":"add-services","services":[{"id":"ok","type":"%s","serviceEndpoint":"https://x.example/"}]}]`,
+						i, i, strings.Repeat("T", 31))
+
+					var ps []patch.Patch
+
+					_ = json.Unmarshal([]byte(raw), &ps)
+
+					return errStr(vparser.ValidateDelta(&model.DeltaModel{UpdateCommitment: refCommitment(map[string]interface{}{"kty": "EC", "crv": "P-256", "x": "x", "y": "y"}, sha2_256), Patches: ps}))
+				}})
+
+				jobs = append(jobs, job{fmt.Sprintf("doccomposer.New().ApplyPatches#%d", i), func() interface{} {
+					var ps []patch.Patch
+
+					_ = json.Unmarshal([]byte(fmt.Sprintf(`[{"action":"add-also-known-as","uris":["https://made-here-%d.example/"]}]`, i)), &ps)
+					out, e := doccomposer.New().ApplyPatches(document.Document{"alsoKnownAs": []interface{}{"https://before.example/"}}, ps)
+
+					return []interface{}{out, errStr(e)}
 				}})
 			}
 		}
